@@ -49,7 +49,7 @@ import os, re
 from vlib import Case, Stream, BUILD, model_cmd
 
 ID = "C13"
-LEAN_MODULES = ["HgVerif.Props.C13"]
+LEAN_MODULES = ["HgVerif.Props.C13", "HgVerif.Props.C13Chain"]
 THEOREMS = [
     "HgVerif.RefLink.ref_subscription_inv", "HgVerif.RefLink.ref_subscription_exact",
     "HgVerif.RefLink.ref_same_no_tick", "HgVerif.RefLink.ref_same_link_noop",
@@ -60,24 +60,40 @@ THEOREMS = [
     "HgVerif.RefLink.ref_retarget_samples", "HgVerif.RefLink.ref_retarget_samples_keyed",
     "HgVerif.RefLink.pubRPreFix_reports_stale", "HgVerif.RefLink.ref_delta_value_keyed_refuted",
     "HgVerif.RefLink.cycle_sched_nil", "HgVerif.RefLink.reach_sched", "HgVerif.RefLink.applyDelta_keys_spec",
+    # chained references (Props/C13Chain.lean)
+    "HgVerif.RefLink.nodeStep_spec", "HgVerif.RefLink.chain_out_spec", "HgVerif.RefLink.chain_inv",
+    "HgVerif.RefLink.chain_out_resolved", "HgVerif.RefLink.chain_equals_resolved",
+    "HgVerif.RefLink.chain_retarget_samples", "HgVerif.RefLink.chain_unchanged_silent",
+    "HgVerif.RefLink.chain_reads_designated",
 ]
 CXX_TARGETS = ["hgv_ref"]
-RULE = ("graphs replay(sel),replay(a),replay(b)[,replay(c)] -> if_then_else|if_cmp -> [direct|nested pass|nested inner|"
+RULE = ("graphs replay(sel),replay(a),replay(b)[,replay(c)] -> if_then_else|if_cmp|a selection TREE of if_then_else/if_cmp/"
+        "nested pass-through nodes whose branches are targets or inner REF outputs (<= 6 selectors, depth <= 4, fixed "
+        "two-/three-level topologies and random trees, 1 selector per node) -> [direct|nested pass|nested inner|"
         "nested inner taking the REF] "
         "-> 1-3 consumers + record, shapes TS<Int>/TSS<Int>/TSD<Int,TS<Int>>, histories of 3-14 cycles built from the "
         "named timing scenarios plus random cycles, and every history of length 3 (quick) / 4 (thorough) over "
-        "{no selector, sel=a, sel=b} x {a ticks} x {b ticks}; a case is non-trivial when it contains a retarget to a "
-        "valid target that did not tick in that cycle, a tick of an unselected target after the first selection, or a "
-        "re-selection of the selected target; distinct by sha1 of the case text")
+        "{no selector, sel=a, sel=b} x {a ticks} x {b ticks}, and every history of length 3 over i(i(a,b),c) x "
+        "{each selector silent|branch} x {no target, all targets tick}; a case is non-trivial when it contains a retarget to a "
+        "valid target that did not tick in that cycle, a tick of an unselected target after the first selection, a "
+        "re-selection of the selected target, a retarget caused by an inner selector while the root's selector is silent, "
+        "a path change that ends at the same target, or a kept (stale) reference; distinct by sha1 of the case text")
 TRUSTED = ["contract-level model: REF output = optional target id, one link per consumer; the attachment "
            "bookkeeping of ts_output/alternative.cpp (shared endpoint link, active tries, forwarding sources) and "
            "target_link*.cpp is NOT modelled, only exercised through the real graph",
+           "chained references: one nodeStep per selection operator and cycle, bottom-up (rank order is C01's); a REF "
+           "handed through a nested_ graph is modelled as transparent",
            "the engine part of the model is three phases per cycle (targets, selector, consumers) - rank order and "
            "at-most-once evaluation are C01's, validity gating C03's",
            "the value layer, KeySlotStore and record/replay are exercised, not modelled (replay/record round trip: C20)"]
 ASSUMPTIONS = ["simulation mode, dense 'testing' record/replay backend, start time MIN_ST, one cycle per MIN_TD",
                "references are peered references to whole outputs (no empty references, no non-peered/structural "
-               "references, no TSB/TSL shapes); selection by if_then_else / if_cmp only (switch_ is C12's)",
+               "references, no TSB/TSL shapes); selection by if_then_else / if_cmp only (switch_ is C12's), flat or "
+               "chained (branches may be the REF outputs of other selection operators, also through a nested_ graph)",
+               "a selection whose selected branch has not published a reference yet keeps the reference it published "
+               "before (if_then_else_impl: `if (!selected.valid()) return;`, same as hgraph's Python if_then_else): the "
+               "monitor reads a tree this way (feature stale-reference-kept); 'unset selections make the reference "
+               "unset' holds only until the first complete resolution (Lean: chain_out_spec, staleExample)",
                "a replayed delta never names the same key in its set and delete part",
                "the clamp of graph.cpp nested_schedule_node_impl is neither modelled nor exercised: in these graphs "
                "every cross-boundary notification already carries the parent's current time (a probe build that "
@@ -99,7 +115,10 @@ LEVEL_TEXT = ("Kernel-checked for ALL retarget/tick histories of the contract-le
               "happens whenever that target ticks; a retarget to a valid target evaluates every consumer in that cycle "
               "with modified=true and the sampled value; for sets/dicts the reported difference equals old-vs-new "
               "contents for every history (after the repair of finding C13-B); 'delta_value() is the difference' is "
-              "refuted (known finding C13-A). The model is tied to the code by running the real "
+              "refuted (known finding C13-A). Chained references: for every selection tree the event-driven "
+              "publication of the operators equals the state-based reading (a node designates what its selected "
+              "branch designates), and a cycle of the tree above a dereference IS a cycle of one reference to the "
+              "designated / resolved target, so all of the above holds for chains. The model is tied to the code by running the real "
               "operators and consumers on generated histories.")
 LEVEL_NOTE = ("PARTIAL by design: the model is the linking contract (linking_strategies.rst 'Sampled rebinds' + the "
               "observable behaviour of the anchored files), not alternative.cpp's attachment bookkeeping; switch_, "
@@ -591,18 +610,21 @@ def streams(rng, tier, seed):
     rand = [gen_case(rng, i, maxlen) for i in range(n_rand)]
     chain = [gen_chain_case(rng, 200000 + i, maxlen + 2) for i in range(n_chain)]
     exh = exhaustive(rng, ["ts"] if quick else ["ts", "tss", "tsd"], 3 if quick else 4, 100000)
-    # two-level tree, every history: quick 3 cycles with {no target, every target} ticking, thorough 3 cycles with
-    # every subset of the targets and 4 cycles with {none, all}
+    # two-level tree, every history of 3 cycles over {each selector silent | one of its branches} x {no target, every
+    # target ticks}; thorough adds sets with {none, a, b, c, all} ticking, an if_cmp below the root, and 4 cycles
     exh_chain = exhaustive_chain(rng, "i(i(a,b),c)", ["ts"], 3, 300000, [(), ("a", "b", "c")])
-    if not quick:
-        subsets = [(), ("a",), ("b",), ("c",), ("a", "b", "c")]
-        exh_chain += exhaustive_chain(rng, "i(i(a,b),c)", ["tss"], 3, 400000, subsets)
-        exh_chain += exhaustive_chain(rng, "i(a,m(b,c,a))", ["ts"], 3, 900000, [(), ("a", "b", "c")])
-        exh_chain += exhaustive_chain(rng, "i(i(a,b),c)", ["ts"], 4, 1000000, [(), ("a", "b", "c")])
     out = [Stream("histories", EXE, model_cmd("C13"), corpus_cases() + rand),
            Stream("chained", EXE, model_cmd("C13"), chain),
            Stream("small-scope", EXE, model_cmd("C13"), exh),
            Stream("small-scope-chained", EXE, model_cmd("C13"), exh_chain)]
+    if not quick:
+        subsets = [(), ("a",), ("b",), ("c",), ("a", "b", "c")]
+        out += [Stream("small-scope-chained-sets", EXE, model_cmd("C13"),
+                       exhaustive_chain(rng, "i(i(a,b),c)", ["tss"], 3, 400000, subsets), timeout=3600),
+                Stream("small-scope-chained-cmp", EXE, model_cmd("C13"),
+                       exhaustive_chain(rng, "i(a,m(b,c,a))", ["ts"], 3, 900000, [(), ("a", "b", "c")]), timeout=3600),
+                Stream("small-scope-chained-4", EXE, model_cmd("C13"),
+                       exhaustive_chain(rng, "i(i(a,b),c)", ["ts"], 4, 1000000, [(), ("a", "b", "c")]), timeout=3600)]
     if os.environ.get("C13_FINDINGS", "on") != "off":
         cases = [Case(["case %d" % i] + b) for i, b in enumerate(DIRECTED_FINDINGS)]
         keyed = [c for c in rand if " tss " in c.lines[1] or " tsd " in c.lines[1]][: (60 if quick else 600)]
@@ -762,9 +784,6 @@ def walk(stream, case, out):
                 feats.add("reselect-same")
             sel = new
         if chained:
-            if head.get("n") != str(published):
-                bad.append("[publish-count] cycle %d: %s nodes of the tree published a reference, %d changed what they "
-                           "designate" % (cyc, head.get("n"), published))
             resolved = tree.resolve(conds)
             if resolved is None and sel is not None:
                 feats.add("stale-reference-kept")
@@ -896,6 +915,10 @@ def walk(stream, case, out):
             if not ok:
                 bad.append("[record] cycle %d: record through the reference stored %s in a cycle without a tick of the "
                            "selected target or a retarget to a valid target" % (cyc, rs))
+        # inside the tree: a node's REF output ticks exactly when what it designates changes
+        if chained and head.get("n") != str(published):
+            bad.append("[publish-count] cycle %d: %s nodes of the tree published a reference, %d changed what they "
+                       "designate" % (cyc, head.get("n"), published))
         cyc += 1
     return bad, feats
 
